@@ -95,7 +95,9 @@ class SequentialRunner(Runner):
                     raise ValueError(
                         f"{name}.numMarkets and ({name}.from or {name}.to) cannot be used at the same time"
                     )
-                n_markets = int(market_settings["to"]) - int(market_settings["from"])
+                n_markets = (
+                    int(market_settings["to"]) - int(market_settings["from"]) + 1
+                )
                 id_from = int(market_settings["from"])
                 id_to = int(market_settings["to"])
             if "numMarkets" in market_settings:
@@ -192,7 +194,7 @@ class SequentialRunner(Runner):
                     raise ValueError(
                         f"{name}.numMarkets and ({name}.from or {name}.to) cannot be used at the same time"
                     )
-                n_agents = int(agent_settings["to"]) - int(agent_settings["from"])
+                n_agents = int(agent_settings["to"]) - int(agent_settings["from"]) + 1
                 id_from = int(agent_settings["from"])
                 id_to = int(agent_settings["to"])
             if "numAgents" in agent_settings:
